@@ -8,4 +8,4 @@ CONSTANTS
   FileRoots = FALSE
 SPECIFICATION Spec
 CHECK_DEADLOCK FALSE
-INVARIANT Emit
+INVARIANT Contained
